@@ -81,7 +81,10 @@ int main(int argc, char **argv) {
             IntPolynomial_ifft(la, a); TorusPolynomial_ifft(lb, b); LagrangeHalfCPolynomialMul(lc, la, lb); TorusPolynomial_fft(r, lc);
             compare("LagrangeHalfCPolynomialMul", icls, lgB, tcls, r->coefsT, exact, tolP);
             // multiply-accumulate / multiply-subtract of T terms in the Lagrange domain
+            // T accumulated terms; the back-ends convert through int64, so keep |a|*N*2^31*T below 2^62
+            // (beyond that the exact sum is not representable in the transform's output stage: outside the property)
             int T = rep % 2 ? 32 : 4;
+            while (T > 1 && lgB + 10 + 31 + (int) log2((double) T) > 61) T /= 2;
             std::vector<U> acc(N, 0), e2;
             VH_OP("fftprod:%s:LagrangeHalfCPolynomialAddMul:%s:lgB=%d:%s", tags.c_str(), icls_name[icls], lgB, tcls_name[tcls]);
             LagrangeHalfCPolynomialClear(lc);
